@@ -157,6 +157,7 @@ impl IndexRead {
             hunks: hunks.into_iter(),
             index: self,
             after: None,
+            errors: Vec::new(),
         })
     }
 }
@@ -169,6 +170,8 @@ pub struct IndexHunkIter {
     pub index: IndexRead,
     /// If set, yield only entries ordered after this apath.
     after: Option<Apath>,
+    /// Errors from hunks that could not be read or decoded, and were skipped.
+    errors: Vec<Error>,
 }
 
 impl IndexHunkIter {
@@ -181,7 +184,10 @@ impl IndexHunkIter {
             let entries = match self.index.read_hunk(hunk_number).await {
                 Ok(None) => return None,
                 Ok(Some(entries)) => entries,
-                Err(_err) => {
+                Err(err) => {
+                    // Keep going with the remaining hunks, but remember the error so that the
+                    // caller can report that some entries are missing.
+                    self.errors.push(err);
                     continue;
                 }
             };
@@ -207,6 +213,11 @@ impl IndexHunkIter {
                 return Some(entries);
             }
         }
+    }
+
+    /// Take the errors from any hunks that were skipped because they could not be read.
+    pub fn take_errors(&mut self) -> Vec<Error> {
+        std::mem::take(&mut self.errors)
     }
 
     /// Collect the contents of the iterator into a vector of hunks, each of which
